@@ -27,6 +27,7 @@ import (
 	"strconv"
 	"strings"
 	"sync"
+	"sync/atomic"
 	"syscall"
 	"time"
 )
@@ -381,9 +382,17 @@ type c16Pkt struct {
 
 // edfChildBatch: decode the packets in child processes. A child that dies or stalls is blamed on the packet in
 // progress (confirmed by running that packet alone); the rest continues in a fresh child.
-func edfChildBatch(pkts []*c16Pkt, stall time.Duration, r *Result, stop func(*c16Pkt) bool) {
+// abort (optional): asked before every (re)start; true = enough children have died in this run, leave the rest
+func edfChildBatch(pkts []*c16Pkt, stall time.Duration, r *Result, stop func(*c16Pkt) bool, abort func(culpritFound bool) bool) {
 	rem := pkts
 	for len(rem) > 0 {
+		if abort != nil && abort(false) {
+			for _, k := range rem {
+				k.status = "skipped"
+			}
+			r.CountN("c16.child.not-run(too many child deaths in this run)", len(rem))
+			return
+		}
 		n, how, errTail := edfChildOnce(rem, stall, stop)
 		r.Count("c16.child.processes")
 		if how == "" {
@@ -405,7 +414,7 @@ func edfChildBatch(pkts []*c16Pkt, stall time.Duration, r *Result, stop func(*c1
 			}
 			return
 		}
-		if n > 0 {
+		if n > 0 && how == "died" {
 			// confirm alone: earlier packets of the batch may have left the heap large
 			m, how2, tail2 := edfChildOnce([]*c16Pkt{culprit}, stall, nil)
 			r.Count("c16.child.processes")
@@ -418,8 +427,35 @@ func edfChildBatch(pkts []*c16Pkt, stall time.Duration, r *Result, stop func(*c1
 		}
 		culprit.status, culprit.stderr = how, errTail
 		r.Count("c16.child." + how)
+		if abort != nil {
+			abort(true)
+		}
 		rem = rem[n+1:]
 	}
+}
+
+// fatalLine: the line of a dead child's stderr that says why it died
+func fatalLine(stderr string) string {
+	first := ""
+	for _, l := range strings.Split(stderr, "\n") {
+		l = strings.TrimSpace(l)
+		if l == "" {
+			continue
+		}
+		if first == "" {
+			first = l
+		}
+		if strings.HasPrefix(l, "fatal error:") || strings.HasPrefix(l, "panic:") || strings.HasPrefix(l, "SIG") || strings.HasPrefix(l, "signal:") {
+			if first != l {
+				return l + " (" + clip(first, 160) + ")"
+			}
+			return l
+		}
+	}
+	if first == "" {
+		return "no message on stderr (killed)"
+	}
+	return clip(first, 200)
 }
 
 // edfChildOnce returns the number of packets answered and, if the child did not finish, why ("died"/"timeout")
@@ -473,8 +509,8 @@ func edfChildOnce(pkts []*c16Pkt, stall time.Duration, stop func(*c16Pkt) bool) 
 					return n, "", ""
 				}
 				tail := errb.String()
-				if len(tail) > 600 {
-					tail = tail[:600]
+				if len(tail) > 1500 {
+					tail = tail[:1500]
 				}
 				return n, "died", tail
 			}
@@ -1225,7 +1261,7 @@ func c16Edf(c *Ctx) {
 			break
 		}
 	}
-	r.CountN("c16.alloc.max-permille-of-bound(in-process)", int(st.maxPermille))
+	r.CountN("c16.alloc.max-permille-of-bound(outside the listed regions)", int(st.maxPermille))
 }
 
 func dbg(f string, a ...interface{}) {
@@ -1239,6 +1275,7 @@ type c16State struct {
 	maxPermille uint64
 	expensive   int // listed-region packets that turned out expensive so far
 	expCap      int
+	deaths      int32 // children that died or stalled outside the listed-region run (atomic)
 }
 
 func (k *c16Pkt) expensiveRun() bool {
@@ -1323,6 +1360,10 @@ func c16Round(c *Ctx, pre []string, pkts []*c16Pkt, disagree func(string, string
 			// the model predicts an allocation beyond the bound: observe it in a child
 			r.Count("c16.route.child(model-alloc-over-bound)")
 			child = append(child, k)
+		case k.kind != "valid":
+			// every hostile packet is decoded in a worker child: a decoder that lost a guard (count check, ...) must
+			// cost a child, with the packet in hand, not the harness
+			child = append(child, k)
 		default:
 			inproc = append(inproc, k)
 		}
@@ -1358,10 +1399,6 @@ func c16Round(c *Ctx, pre []string, pkts []*c16Pkt, disagree func(string, string
 				k.reenc, k.reencWhy = edfReencode(rs[i].v, k.cfg)
 			}
 		}
-		pm := k.alloc * 1000 / goAllocBound(len(k.p))
-		if pm > st.maxPermille {
-			st.maxPermille = pm
-		}
 		rs[i] = res{}
 	}
 	r.CountN("c16.in-process.packets", len(inproc))
@@ -1369,7 +1406,13 @@ func c16Round(c *Ctx, pre []string, pkts []*c16Pkt, disagree func(string, string
 	// ---- phase B': implementation, child processes ---------------------------------------------
 	if len(child) > 0 {
 		// several children side by side
-		const par = 4
+		const par = 6
+		abort := func(found bool) bool {
+			if found {
+				atomic.AddInt32(&st.deaths, 1)
+			}
+			return atomic.LoadInt32(&st.deaths) >= 12
+		}
 		var wg sync.WaitGroup
 		per := (len(child) + par - 1) / par
 		for lo := 0; lo < len(child); lo += per {
@@ -1380,7 +1423,7 @@ func c16Round(c *Ctx, pre []string, pkts []*c16Pkt, disagree func(string, string
 			wg.Add(1)
 			go func(part []*c16Pkt) {
 				defer wg.Done()
-				edfChildBatch(part, 20*time.Second, r, nil)
+				edfChildBatch(part, 20*time.Second, r, nil, abort)
 			}(child[lo:hi])
 		}
 		wg.Wait()
@@ -1400,7 +1443,7 @@ func c16Round(c *Ctx, pre []string, pkts []*c16Pkt, disagree func(string, string
 					r.Count("c16.listed-region.expensive-packets-run")
 				}
 				return st.expensive >= st.expCap
-			})
+			}, nil)
 		}
 		ns := 0
 		for _, k := range listed {
@@ -1433,7 +1476,9 @@ func c16Round(c *Ctx, pre []string, pkts []*c16Pkt, disagree func(string, string
 		// explained by the declared array sizes (times the slice lengths the packet can pay for)
 		byArrays := sh.arrProd > 1 && (((k.status == "died" || k.status == "timeout") && sh.arrProd*uint64(len(k.p)) >= 1<<16) ||
 			(k.status != "died" && k.status != "timeout" && sh.arrProd*uint64(len(k.p)+1)*2048 >= k.alloc/2))
-		byRegCount := sh.regCnt > uint64(len(k.p)) && (k.status == "died" || k.status == "timeout" || sh.regCnt*64 >= k.alloc/2)
+		// a registered-map count the model itself charges for (none since fix fd28ef1: the count is checked first)
+		byRegCount := sh.regCnt > uint64(len(k.p)) && k.asked && k.mAlloc > int64(allocBound(len(k.p))) &&
+			(k.status == "died" || k.status == "timeout" || sh.regCnt*64 >= k.alloc/2)
 		byNesting := sh.nest >= 256
 		// nested slices whose counts each pass the "count <= remaining bytes" check: MakeSlice per level (listed)
 		byNestedData := sh.nest > 16 && k.asked && k.mAlloc > int64(allocBound(len(k.p))) && uint64(k.mAlloc)*4 >= k.alloc
@@ -1457,7 +1502,7 @@ func c16Round(c *Ctx, pre []string, pkts []*c16Pkt, disagree func(string, string
 			case byNesting:
 				violation("C16/edf-alloc-nested-descriptor", fmt.Sprintf("the child process died decoding a packet whose descriptor nests %d composite types: %s", sh.nest, clip(k.stderr, 200)), k)
 			default:
-				violation("C16/edf-crash", "the child process died: "+clip(k.stderr, 300), k)
+				violation("C16/edf-crash", fatalLine(k.stderr)+" on packet "+clip(hex.EncodeToString(k.p), 400), k)
 			}
 			continue
 		case "timeout":
@@ -1467,10 +1512,14 @@ func c16Round(c *Ctx, pre []string, pkts []*c16Pkt, disagree func(string, string
 			case byRegCount:
 				violation("C16/edf-alloc-regmap", "decoding did not return within 20 s (4-byte count behind edtReg of "+strconv.FormatUint(sh.regCnt, 10)+")", k)
 			default:
-				r.Count("c16.inconclusive.child-timeout")
-				r.Note("C16/EDF: child timed out on %s (counted as inconclusive)", clip(hex.EncodeToString(k.p), 200))
+				violation("C16/edf-hang", "edf.Decode had not returned after 20 s in a worker child on packet "+clip(hex.EncodeToString(k.p), 400), k)
 			}
 			continue
+		}
+		if !byArrays && !byNesting && !byNestedData && !byRegCount {
+			if pm := k.alloc * 1000 / goAllocBound(len(k.p)); pm > st.maxPermille {
+				st.maxPermille = pm
+			}
 		}
 		if k.us > 5_000_000 {
 			switch {
